@@ -231,6 +231,8 @@ def _check_padding_order(repo, r4, s, enc, ft):
         r4.require(ok, enc, "padding before level loop", "%s: the posting lists are processed before the database has been padded to 2^t" % s.name, lv.stmt)
         # the level loop iterates the padded copy, not the input
         it = ft.term(lv.stmt.iter, lv.id)
+        while it[0] == "mcall" and it[2] in ("items", "keys", "values") and not it[3]:
+            it = it[1]  # iterating the views of a dict iterates the dict
         padded = it[0] == "cont" and any(m[0] == "setitem" for m in it[3])
         r4.require(padded, enc, "level loop iterates the padded database",
                    "%s: the level loop iterates %s, not the padded copy of the database: dummy entries never reach the tables" % (s.name, show(it, maxdepth=2)[:60]), lv.stmt)
